@@ -185,6 +185,10 @@ class NatSpec(object):
             return True
         return bool(a == b)
 
+    def map_not_nan(self, arr):
+        a = np.asarray(arr)
+        return ~np.isnan(a) if a.dtype.kind == "f" else np.ones(a.shape, dtype=bool)
+
     def snapshot(self, arr):
         return np.array(arr, copy=True)
 
